@@ -203,6 +203,10 @@ class AbsoluteSequence(AbstractSequence):
         if step_sizes is None:
             step_sizes = get_default_step_sizes()
 
+        # Messages sharing a point in time are stored in the order they were added, establish the canonical order (note
+        # off before note on) so that back-to-back notes are not mistaken for overlapping ones
+        self.sort()
+
         # List of finally quantised messages
         quantised_messages = []
         # Keep track of open messages, in order to guarantee quantisation does not smother them
